@@ -85,7 +85,7 @@ def field_values(tp, rnd):
         inner = field_values(args[0], rnd)
         if inner is None:
             return None
-        return [(inner[0],), tuple(inner[:3]), (inner[-1], inner[0])]
+        return [(inner[0],), tuple(inner[:3]), (inner[-1], inner[0]), ()]
     if origin in (typing.Union, getattr(__import__("types"), "UnionType")):
         out = []
         for a in args:
